@@ -243,6 +243,7 @@ inductive Hook where
   | record                       -- returns the parameters unchanged (the harness records the call)
   | limitF (max : Rat)           -- caps the F parameter
   | extrude (k : Rat)            -- E := k * h (+ last E in absolute extrusion mode); h = hypot(dx, dy) supplied per move
+  | drop (key : String)          -- returns a new dictionary without `key` (a hook may return fewer parameters than it got)
 deriving DecidableEq, Repr
 
 structure HookCall where
@@ -307,6 +308,7 @@ def Hook.apply (b : B) (h : Rat) (hk : Hook) (ps : VParams) : VParams :=
   | .extrude k =>
       let len := k * h
       setV ps "E" (.fin (if b.erel then len else len + (b.params.get "E").getD 0))
+  | .drop key => ps.filter (fun e => !(e.1 == key))
 
 inductive Op where
   | move (rapid : Bool) (p : VPt) (ps : VParams) (h : Rat)     -- move()/rapid(); h see `Hook.apply`
